@@ -446,8 +446,21 @@ def evaluate_payload_template(input, context, template):
                     "States.ArrayUnique failed, arg[0] is not an array."
                 )
 
-            # Use set to get unique values from input then use list to convert back
-            return list(set(input_array))
+            """
+            Remove duplicates keeping the first occurrence of each value. The
+            JSON text of each item is used as its identity so that the result
+            order is deterministic (a set of strings is ordered by the process
+            hash seed), unhashable items (objects, arrays) are supported and
+            true/1 or false/0 are not conflated.
+            """
+            seen = set()
+            unique = []
+            for item in input_array:
+                key = json.dumps(item, sort_keys=True)
+                if key not in seen:
+                    seen.add(key)
+                    unique.append(item)
+            return unique
 
         def asl_intrinsic_Base64Encode(args):
             if len(args) != 1:
